@@ -68,6 +68,14 @@ LEVEL_TEXT = (
     "(C07_chibar_cdf_difference_is_integral; hypotheses on the components remain hypotheses: they are GammaP/GammaLn facts, C06); KDE (C07_kde_estimate_is_mixture_partial): every accepted table of Perform_KDE samples one function "
     "f(x) = sum_e w_e K((x-p_e)/h)/(h W) over the sorted sample extended by the pseudo data (an explicit list independent of x, any sample size) on the 150-point grid, K((x-p)/h)/h is the normal density, so "
     "int_u^v f = sum_e w_e (Phi((v-p_e)/h) - Phi((u-p_e)/h))/W, between 0 and W_ext/W for non-negative weights. "
+    "Sixth pass (C07_Proofs_Int.v): the discrete form of 'the CDF difference over any interval equals the sum of the mass over it' for the model functions themselves and intervals of any length: "
+    "CDF_Binomial(k+d+1) - CDF_Binomial(k) = sum of PMF_Binomial over k+1..k+d+1, CDF_Binomial non-decreasing over any number of steps, in [0,1], exactly 1 from the number of trials on and "
+    "the success/failure reflection PMF(n,p,k) = PMF(n,1-p,n-k) and CDF(n,p,x) + CDF(n,1-p,n-x-1) = 1 (C07_binomial_cdf_difference_is_sum); the same interval clause for CDF_Poisson/PMF_Poisson, mean 0 included, given that GammaQ returns Q at the integers "
+    "(C07_poisson_cdf_difference_is_sum); the binned likelihoods are invariant under any permutation of the bins (C07_likelihood_poisson_binned_any_bin_order); chi-square: CDF non-decreasing on the whole real line, in [0,1], 0 up to x = 0, -> 1, from the defining "
+    "derivative of P(., dof/2), P(0) = 0 and 0 <= P <= 1 (hypotheses about GammaP: C06), monotonicity itself derived from CDF(y) - CDF(x) = RInt density >= 0 (C07_chi2_cdf_monotone_from_0_to_1); KDE: for every sample, weights and bandwidth the tabulation stays inside the sample and the "
+    "150-row table is accepted exactly for xMin < xMax, xMax <= xMin terminates the process, the sort returns an ascending permutation of the sample (C07_kde_table_accepted_and_offset, which removes the 'or Exit' alternative of C07_kde_table_partial); a common offset of sample and window "
+    "moves the abscissae and leaves all 150 tabulated ordinates unchanged, automatic or manual bandwidth, pseudo data included (same theorem, over the reals: the rounding effects of far windows remain S4 territory); samples without spread get the automatic bandwidth 0 "
+    "(same theorem: the premise of known finding K-C07-2). "
     "NOT theorems: that Find_Root meets its request (C02), numeric agreement of GammaQ/GammaP/GammaLn/Inv_GammaQ/"
     "Binomial_Coefficient with the functions they approximate (C06/C02), and the KDE's normalisation (it divides by an approximate Simpson integral; S4 integrates the returned cubic segments exactly and allows 1e-6 plus the rounding of the abscissae, ulp(x)/2 times the total variation of the estimate, which matters only for windows 1e9 or more widths away from the origin) — these are "
     "S4 predicates on the implementation for every generated case. Correspondence: all closed forms, sums, likelihoods are run model-vs-C++ (bit-identical); "
